@@ -51,7 +51,9 @@ func init() {
 		runner.Part{Scenario: "l0/rsmtwin", Params: p("focus", "sessions"), Share: 2},
 		runner.Part{Scenario: "l0/rsmtwin", Params: p("focus", "sessions", "nohash", "1"), Share: 1})
 	sh("C06", 90, 1200, runner.Part{Scenario: "simhost", Params: p("readmix", "70", "ppartition", "10", "pdup", "30", "preorder", "40", "ptransfer", "8"), Share: 2},
-		runner.Part{Scenario: "simhost", Params: p("readmix", "60", "pmember", "10", "pcrash", "5"), Share: 1})
+		runner.Part{Scenario: "simhost", Params: p("readmix", "60", "pmember", "10", "pcrash", "5"), Share: 1},
+		// reads on a deposed leader that still hears from non-voting members
+		runner.Part{Scenario: "simhost", Params: p("hosts", "4", "voters", "3", "pmember", "15", "memberbias", "1", "checkquorum", "0", "ppartition", "12", "groupsplit", "60", "pheal", "5", "readmix", "60", "pcrash", "0", "pdrop", "0", "quiesce", "0"), Share: 2})
 	sh("C07", 90, 1200, runner.Part{Scenario: "simhost", Params: p("pmember", "20", "hosts", "4"), Share: 2},
 		runner.Part{Scenario: "simhost", Params: p("pmember", "12", "hosts", "5", "pcrash", "6"), Share: 1},
 		runner.Part{Scenario: "simhost", Params: p("pmember", "25", "ptransfer", "30", "hosts", "4", "smyield", "300"), Share: 2},
